@@ -148,6 +148,12 @@ func (r *Router) WithOptions(options ...func(*Router)) {
 	}
 
 	// init route cache container. Notice: it must exist before any lookup, also when no route is added.
+	r.initCachedRoutes()
+}
+
+// init the route cache container by the current options.
+// Notice: the caching options call it too, an option func can also be applied by calling it with the router.
+func (r *Router) initCachedRoutes() {
 	if r.enableCaching {
 		r.cachedRoutes = NewCachedRoutes(int(r.maxNumCaches))
 	}
